@@ -69,4 +69,24 @@ def fileBindings : Nat → List (Bytes × List Method) → List (List Binding)
     let start := if Gen.counterResetPerService then 0 else cnt
     bindingsFrom svc start ms :: fileBindings (start + (ms.filter Method.streaming).length) rest
 
+/-! ### a whole request (`doCodeGen`) -/
+
+/-- a file of the request: its name and its services -/
+abbrev File := Bytes × List (Bytes × List Method)
+
+/-- whether the regenerated shape of `doCodeGen` / `generateChanStubs` is the one modelled: the package override is
+    applied to every file in a loop of its own before any stub is generated, the generation loop has no exit other
+    than an error, and a file without services produces nothing and does not end anything -/
+def requestShapeAsModelled : Bool :=
+  Gen.codegenLoops == [["GoPackageForFileWithOverride"], ["generateChanStubs"]] &&
+    Gen.codegenLoopPlainExits == [] &&
+    Gen.stubgenNoServices == "if len(fd.GetServices()) == 0 { return nil }"
+
+/-- the output files of one plugin invocation: one per file that declares a service, in request order.
+    Any other shape of the loops is not modelled (then nothing is promised: the empty output). -/
+def requestOutputs (files : List File) : List (Bytes × List (List Binding)) :=
+  if requestShapeAsModelled then
+    (files.filter (fun f => !f.2.isEmpty)).map (fun f => (f.1, fileBindings 0 f.2))
+  else []
+
 end Stubgen
